@@ -852,9 +852,9 @@ class Compiler:
             self._compile_expression(node.discriminant)
 
             jump_to_body: List[Tuple[int, int]] = []
-            default_jump = None
+            default_index = None
 
-            # Compile case tests
+            # Compile case tests; the default clause has none, wherever it stands
             for i, case in enumerate(node.cases):
                 if case.test:
                     self._emit(OpCode.DUP)
@@ -863,10 +863,10 @@ class Compiler:
                     pos = self._emit_jump(OpCode.JUMP_IF_TRUE)
                     jump_to_body.append((pos, i))
                 else:
-                    default_jump = (self._emit_jump(OpCode.JUMP), i)
+                    default_index = i
 
-            # Jump to end if no match
-            jump_end = self._emit_jump(OpCode.JUMP)
+            # No case matched: jump to the default clause, or to the end
+            jump_no_match = self._emit_jump(OpCode.JUMP)
 
             # Case bodies
             case_positions = []
@@ -881,7 +881,10 @@ class Compiler:
                 for stmt in case.consequent:
                     self._compile_statement(stmt)
 
-            self._patch_jump(jump_end)
+            if default_index is None:
+                self._patch_jump(jump_no_match)
+            else:
+                self._patch_jump(jump_no_match, case_positions[default_index])
             # A break leaves through the same exit: the discriminant is popped
             for pos in loop_ctx.break_jumps:
                 self._patch_jump(pos)
@@ -889,9 +892,6 @@ class Compiler:
 
             # Patch jumps to case bodies
             for pos, idx in jump_to_body:
-                self._patch_jump(pos, case_positions[idx])
-            if default_jump:
-                pos, idx = default_jump
                 self._patch_jump(pos, case_positions[idx])
 
             self.loop_stack.pop()
